@@ -126,6 +126,7 @@ const (
 	ErrMsgFormatStringLengthNotMatch           = "number of replace values does not match"
 	ErrMsgUnknownFormatPlaceholder             = "%q is an unknown placeholder"
 	ErrMsgFormatUnexpectedTermination          = "unexpected termination of format string"
+	ErrMsgFormatWidthTooLarge                  = "width and precision of a placeholder must be less than or equal to %d"
 	ErrMsgExternalCommand                      = "external command: %s"
 	ErrMsgHttpRequest                          = "failed to get resource from %s: %s"
 	ErrMsgInvalidReloadType                    = "%s is an unknown reload type"
@@ -1451,6 +1452,16 @@ type UnknownFormatPlaceholderError struct {
 func NewUnknownFormatPlaceholderError(placeholder rune) error {
 	return &UnknownFormatPlaceholderError{
 		BaseError: NewBaseError(parser.NewNullValue(), fmt.Sprintf(ErrMsgUnknownFormatPlaceholder, string(placeholder)), ReturnCodeApplicationError, ErrorUnknownFormatPlaceholder),
+	}
+}
+
+type FormatWidthTooLargeError struct {
+	*BaseError
+}
+
+func NewFormatWidthTooLargeError(limit int) error {
+	return &FormatWidthTooLargeError{
+		BaseError: NewBaseError(parser.NewNullValue(), fmt.Sprintf(ErrMsgFormatWidthTooLarge, limit), ReturnCodeApplicationError, ErrorFormatWidthTooLarge),
 	}
 }
 
